@@ -1456,6 +1456,12 @@ impl HistX {
                 ex.quiet = false;
                 ex.audit("after the last operation (no reads in between)")?;
             }
+            // probe of the rollback history: one more rollback(1) at the end (served or refused as
+            // the model says) makes a stray or a missing rollback record visible whatever the
+            // history did last
+            if case["final_rollback"].as_bool().unwrap_or(false) && ex.cfg.rollback && ex.held.is_empty() {
+                ex.step(9998, &json!({"rb": 1}))?;
+            }
             if case["final_reopen"].as_bool().unwrap_or(false) {
                 ex.step(9999, &json!({"reopen": {}}))?;
             }
